@@ -1,6 +1,8 @@
 """C15 - covariance under relabelling, permutation, degenerate rotation, conjugation, shift, scale, direct sums."""
 from __future__ import annotations
 
+import re
+
 from collections import Counter
 from fractions import Fraction
 
@@ -73,7 +75,10 @@ def _close(p, A, B, what, bitwise=False, scale=1.0):
             raise Violation(f"{what}: not bitwise equal (max diff {np.max(np.abs(A - B)):.3e})")
         return
     err = float(np.max(np.abs(A - B), initial=0.0))
-    if not err <= 1e-9 * max(1.0, scale):
+    # (rounding noise of a rotated / re-encoded input is amplified by |H'|/gap per order: oracles.noise_floor)
+    m_ = re.search(r"_\(([0-9, ]+)\)$", what)
+    n_ = tuple(int(x) for x in m_.group(1).replace(" ", "").strip(",").split(",")) if m_ else tuple(p.orders[-1])
+    if not err <= 1e-9 * max(1.0, scale) + oracles.noise_floor(p, n_):
         raise Violation(f"{what}: differ by {err:.3e} (scale {scale:.3g})")
 
 
@@ -286,7 +291,7 @@ def run_case(spec):
         for name, A, A2, B in zip(names, base, base2, got):
             for n in p.orders:
                 want = embed(A.get(n, zA), A2.get(n, zB), p.exact)
-                _close(p, B[n], want, f"direct sum: {name}_{n}", scale=mag)
+                _close(q, B[n], want, f"direct sum: {name}_{n}", scale=mag)
                 compared += 1
     counters["elements_compared"] += compared
     nontrivial = oracles.perturbation_couples_eliminated(p) and spec["max_total"] >= 2
